@@ -12,6 +12,15 @@ def parseSlot (s : String) : Slot :=
   | "i" => ⟨false, 0, counts⟩
   | m => if m.startsWith "e" then ⟨false, (m.drop 1).toString.toInt!, counts⟩ else ⟨false, 0, counts⟩
 
+def parseSrcSlot (s : String) : SrcSlot :=
+  let parts := s.splitOn ":"
+  let kind := parts.head!
+  let counts := kind == "P" || kind == "B" || kind == "V" || kind == "CV" || kind == "I" || kind == "K" || kind == "CB"
+  match parts.getD 1 "" with
+  | "n" => ⟨true, none, counts⟩
+  | "i" => ⟨false, none, counts⟩
+  | m => if m.startsWith "e" then ⟨false, some (m.drop 1).toString.toInt!, counts⟩ else ⟨false, none, counts⟩
+
 def showSlots (l : List Slot) : String :=
   ",".intercalate ((l.filter (·.counts)).map fun s => if s.named then "n" else toString s.id)
 
@@ -26,7 +35,7 @@ def modEnts (a : List String) : List GEnt := ⟨.global, true⟩ :: (a.map parse
 def numOps (op : String) (a : List String) : Option String :=
   match op, a with
   | "num.api", ts => some (match assignIDs (ts.map parseSlot) with | .ok l => "ok " ++ showSlots l | .error => "error")
-  | "num.parse", ts => some (match assignIDs (ts.map parseSlot) with | .ok l => "ok " ++ showSlots l | .error => "error")
+  | "num.parse", ts => some (match parseAssign (ts.map parseSrcSlot) with | .ok l => "ok " ++ showSlots l | .error => "error")
   | "num.check", _ => some "ok"
   | "num.mod", ts => some (match printParsed (modEnts ts) with | .ok l => "ok " ++ showSlots l | .error => "panic")
   | "num.modapi", ts => some (match printParsed (modEnts ts) with | .ok l => "ok " ++ showSlots l | .error => "panic")
